@@ -46,6 +46,14 @@ func genSessionOps(rng *RNG, c nwCfg, n int, nkeys int, farFuture bool) []wop {
 		last[k] = t + int64(rng.Intn(int(c.timeout)+1))
 	}
 	maxTs := t
+	// one history in three uses the NULL group (90: nil / missing) and the empty string (91) as keys
+	keyNames := []string{"1", "2", "3"}
+	if rng.Intn(3) == 0 {
+		keyNames = [][]string{{"90", "2", "3"}, {"90", "91", "3"}, {"1", "90", "91"}}[rng.Intn(3)]
+		if nkeys == 1 {
+			keyNames = []string{[]string{"90", "91"}[rng.Intn(2)]}
+		}
+	}
 	mkAdd := func() wop {
 		id++
 		k := rng.Intn(nkeys)
@@ -81,7 +89,7 @@ func genSessionOps(rng *RNG, c nwCfg, n int, nkeys int, farFuture bool) []wop {
 				maxTs = ts
 			}
 		}
-		o := wop{kind: 'A', id: id, ts: ts, key: fmt.Sprint(k + 1)}
+		o := wop{kind: 'A', id: id, ts: ts, key: keyNames[k]}
 		if rng.Intn(40) == 0 {
 			o.kind = 'N'
 		}
